@@ -114,7 +114,7 @@ def module_entry(m):
             'own': [[n, own_kinds[n]] for n in own], 'ancestor_rules': anc_names}
 
 
-def gen_plan(seed, useed, index, verif_seed):
+def gen_plan(seed, useed, index, verif_seed, scale=1):
     ur = rngm.stream(useed, 'universe')
     tr = rngm.stream(useed, 'texts')
     wr = rngm.stream(seed, 'workload')
@@ -145,7 +145,7 @@ def gen_plan(seed, useed, index, verif_seed):
     live = []
 
     def parses(k):
-        for _ in range(k):
+        for _ in range(k * scale):
             if not live:
                 return
             if len(live) >= 2 and ops and ops[-1]['op'] == 'parse' and wr.random() < 0.25:
@@ -602,7 +602,7 @@ def prepare(verif_seed, index):
 def run_one(verif_seed, index, tier='quick'):
     seed = rngm.run_seed(verif_seed, PROP, index)
     useed = rngm.derive('universe', verif_seed, PROP, index // RUNS_PER_UNIVERSE)
-    plan = gen_plan(seed, useed, index, verif_seed)
+    plan = gen_plan(seed, useed, index, verif_seed, scale=C.scale_of(tier, index, RUNS_PER_UNIVERSE))
     res = execute(plan)
     res['index'] = index
     res['plan'] = plan
